@@ -138,7 +138,7 @@ TOp == Ev.k = "op" /\ (IF InOther(P) THEN Stutter ELSE ((RingOp \/ SmOp) /\ Same
 TNote == \/ Ev.k = "unpark" /\ drv[P].on /\ notified[P]
             /\ notified' = [notified EXCEPT ![P] = FALSE] /\ UNCHANGED <<ring, sm, waker, wlock, keep, pc, reg, gh, drv, hid>>
          \/ Ev.k = "park" /\ drv[P].on /\ reg[P].res = "pending" /\ Stutter
-         \/ Ev.k \in {"wake", "suspended", "panic", "final"} /\ Stutter
+         \/ Ev.k \in {"wake", "suspended", "panic", "final", "slept"} /\ Stutter
 
 \* structural verdicts along the real behaviour (the delivery verdicts are Trace_AbsMulti's, on the same recorded executions)
 BadOf == IF ~InvRingBounds THEN "InvRingBounds"
